@@ -90,13 +90,25 @@ def run_direct(name, args, case):
 def run_eval(name, args, form, case):
     names = {}
     parts = []
+    via_index = form.startswith('idx:')
+    if via_index:
+        form = form[4:]
     for a in args:
         if shapes.is_marker(a):
             parts.append('(' + a[1] + ')' if a[0] == 'lambda' else a[1])
         else:
             k = f'a{len(names)}'
-            names[k] = a
-            parts.append(k)
+            if via_index and isinstance(a, (list, dict)):
+                # the host object is nested in a wrapper and addressed by a single-index expression
+                if len(names) % 2:
+                    names[k] = {'k': a}
+                    parts.append(f'{k}["k"]')
+                else:
+                    names[k] = [a]
+                    parts.append(f'{k}[0]')
+            else:
+                names[k] = a
+                parts.append(k)
     call = f'{name}({", ".join(parts)})'
     if parts and form.startswith('|'):
         call = f'{parts[0]} | {name}' + (f'({", ".join(parts[1:])})' if len(parts) > 1 else '')
@@ -131,7 +143,7 @@ def cases(draw, table):
     name = a.pick(table)
     args = a.call(name, typed_ratio=9)
     mode = 'direct' if a.n(2) else 'eval'
-    form = a.pick(FORMS + ['|', '|'])
+    form = a.pick(FORMS + ['|', '|', 'idx:{c}', 'idx:{c}', 'idx:|', 'idx:r = {c}\nr'])
     return name, args, mode, form
 
 
